@@ -74,10 +74,13 @@ const firstPlay = 1 // the playground is 1..N; catalog (N+1) and pages (N+2) are
 
 // ---- exhaustive small space: n = 2 objects, r <= 3 revisions ----
 
+// every sequence of cross-reference kinds (false = table, true = stream), incl. a table
+// appended to a file whose earlier sections are streams
 var xrefSeqs = map[int][][]bool{
 	1: {{false}, {true}},
-	2: {{false, false}, {false, true}, {true, true}},
-	3: {{false, false, false}, {false, false, true}, {false, true, true}, {true, true, true}},
+	2: {{false, false}, {false, true}, {true, true}, {true, false}},
+	3: {{false, false, false}, {false, false, true}, {false, true, true}, {true, true, true},
+		{true, false, false}, {true, true, false}, {true, false, true}, {false, true, false}},
 }
 
 // per revision and object: 0 untouched, 1 set plain, 2 set in object stream, 3 delete
@@ -182,11 +185,19 @@ func (p *Prop) Generate(base uint64, index int, env *sim.Env) *sim.Case {
 		streamFrom = r.Intn(nrev + 1)
 	}
 	live := map[int]bool{}
+	anyOrder := false
 	kindOf := map[int]int{}
 	peerHeavy := r.Pct(10)
 	var uncleanAt [][]int // per revision: live objects whose references lead to a deleted or undefined object
 	for rev := 0; rev < nrev; rev++ {
-		rp := RevPlan{Stream: rev >= streamFrom, Conts: 1 + r.Intn(2), StmZ: r.Bool(), XRefZ: r.Intn(3), LenInStm: r.Bool()}
+		if rev == 0 {
+			anyOrder = r.Pct(30)
+		}
+		isStream := rev >= streamFrom
+		if anyOrder {
+			isStream = r.Bool()
+		}
+		rp := RevPlan{Stream: isStream, Conts: 1 + r.Intn(2), StmZ: r.Bool(), XRefZ: r.Intn(3), LenInStm: r.Bool()}
 		if r.Pct(50) {
 			rp.Shuffle = r.Uint64() | 1
 		}
